@@ -16,6 +16,8 @@ def dispatch (op : String) (payload : Json) : R Json :=
   | "import_walk" => C13.handleWalk payload
   | "cache_gate" => C19.handleGate payload
   | "cache_history" => C19.handleHistory payload
+  | "cache_deps_history" => C19.Deps.handleHistory payload
+  | "cache_argkey" => C19.Deps.handleArgsKey payload
   | "ser" => C18.handleSer payload
   | "structure" => C18.handleStructure payload
   | "ir_document" => C18.handleIrDocument payload
